@@ -95,13 +95,27 @@ def graph_probe(R, n_graphs):
     rng = R.rng
     for gi in range(n_graphs):
         g = gen_graph(rng) if gi else [[1, 2], [0, 1], [1]]
-        L = ["from dataclasses import dataclass", "from typing import Optional, List", ""]
+        # some classes are plain classes whose fields are given by set_object_fields (objects too: the recursion analysis must
+        # see through them)
+        plain = {i for i in range(len(g)) if rng.random() < 0.3}
+        kinds = {(i, j): rng.choice(["opt", "list"]) for i, succ in enumerate(g) for j in range(len(succ))}
+        L = ["from dataclasses import dataclass", "from typing import Optional, List",
+             "from apischema.objects import ObjectField, set_object_fields", ""]
         for i, succ in enumerate(g):
+            if i in plain:
+                L += [f"class N{i}:", "    def __init__(self, **kwargs):", "        self.__dict__.update(kwargs)", ""]
+                continue
             L += ["@dataclass", f"class N{i}:", "    x: int = 0"]
             for j, s2 in enumerate(succ):
-                L.append(f"    f{j}: " + rng.choice(["Optional['N%d'] = None", "'Optional[List[N%d]]' = None"]) % s2)
+                L.append(f"    f{j}: " + ("Optional['N%d'] = None" if kinds[i, j] == "opt" else "'Optional[List[N%d]]' = None") % s2)
             L.append("")
-        src = "\n".join(L)
+        for i in sorted(plain):
+            fl = ['ObjectField("x", int, False, default=0)']
+            for j, s2 in enumerate(g[i]):
+                tp = f"Optional[N{s2}]" if kinds[i, j] == "opt" else f"Optional[List[N{s2}]]"
+                fl.append(f'ObjectField("f{j}", {tp}, False, default=None)')
+            L.append(f"set_object_fields(N{i}, [{', '.join(fl)}])")
+        src = "\n".join(L) + "\n"
         mod = pyrun.exec_module(src)
 
         def data(k, depth, bad):
@@ -110,7 +124,7 @@ def graph_probe(R, n_graphs):
                 for j, s2 in enumerate(g[k]):
                     if rng.random() < 0.6:
                         sub = data(s2, depth - 1, bad)
-                        d[f"f{j}"] = [sub] if "List" in str(mod.__dict__[f"N{k}"].__annotations__[f"f{j}"]) else sub
+                        d[f"f{j}"] = [sub] if kinds[k, j] == "list" else sub
             return d
         for root in range(len(g)):
             for bad in (False, True):
